@@ -684,88 +684,174 @@ Section Generic.
     rewrite E. rewrite (gw_const_rows_false (o2 :: r) (fun _ => v0)), map_map. apply map_ext. intros x. reflexivity.
   Qed.
 
-  (* "Variable": positions *)
-  Lemma valid_points_ge i (vals : list (option F)) : Forall (fun p => i <= fst p) (valid_points i vals).
+  (* ---- "Variable" (code after commit 400240e): interpolation by DATE ----------------------------- *)
+  Notation lt_date := (fun p q : Z * F => fst p < fst q).
+
+  (* what sort_index leaves of the observations: [obs_sorted] is sorted by date, one entry per date, and
+     the entry of a date is its LAST write *)
+  Definition last_write (d : Z) (obs : list (Z * F)) : option F :=
+    fold_left (fun acc p => if Z.eqb (fst p) d then Some (snd p) else acc) obs None.
+
+  Lemma lookup_insert d d' v (pts : list (Z * F)) :
+    lookup_date d (insert_obs d' v pts) = if Z.eqb d' d then Some v else lookup_date d pts.
   Proof.
-    revert i. induction vals as [|[v|] vals IH]; intros i; simpl; auto.
-    - constructor; [simpl; lia|]. eapply Forall_impl; [|apply IH]. simpl. intros; lia.
-    - eapply Forall_impl; [|apply IH]. simpl. intros; lia.
+    unfold lookup_date. induction pts as [|[d1 v1] pts IH]; simpl.
+    - now destruct (Z.eqb d' d).
+    - destruct (d' <? d1) eqn:E1; simpl.
+      + now destruct (Z.eqb d' d).
+      + destruct (d' =? d1) eqn:E2; simpl.
+        * apply Z.eqb_eq in E2. subst. now destruct (Z.eqb d1 d).
+        * destruct (Z.eqb d1 d) eqn:E3; simpl; auto.
+          apply Z.eqb_eq in E3. subst. now rewrite E2.
   Qed.
 
-  Lemma interp_fill_length pts i (vals : list (option F)) : length (interp_fill pts i vals) = length vals.
-  Proof. revert i. induction vals as [|[v|] vals IH]; intros i; simpl; auto. Qed.
-
-  (* observed values are kept *)
-  Lemma interp_fill_keeps pts i (vals : list (option F)) k v :
-    nth_error vals k = Some (Some v) -> nth_error (interp_fill pts i vals) k = Some (Some v).
+  Theorem obs_sorted_lookup d (obs : list (Z * F)) : lookup_date d (obs_sorted obs) = last_write d obs.
   Proof.
-    revert i k. induction vals as [|[x|] vals IH]; intros i k H; destruct k; simpl in *; try discriminate; auto.
+    unfold obs_sorted, last_write.
+    assert (forall pts, lookup_date d (fold_left (fun acc p => insert_obs (fst p) (snd p) acc) obs pts)
+                        = fold_left (fun acc p => if Z.eqb (fst p) d then Some (snd p) else acc) obs (lookup_date d pts)) as H.
+    { induction obs as [|[d' v] obs IH]; intros pts; simpl; auto. now rewrite IH, lookup_insert. }
+    apply H.
   Qed.
 
-  Theorem interpolate_keeps (vals : list (option F)) k v :
-    nth_error vals k = Some (Some v) -> nth_error (interpolate vals) k = Some (Some v).
-  Proof. apply interp_fill_keeps. Qed.
-
-  (* a series that starts with NaN still starts with NaN after interpolate() *)
-  Theorem interpolate_head_nan (vals : list (option F)) :
-    hd_error (interpolate (None :: vals)) = Some None.
+  Lemma insert_obs_In d v (pts : list (Z * F)) p : In p (insert_obs d v pts) -> p = (d, v) \/ In p pts.
   Proof.
-    unfold interpolate. simpl.
-    pose proof (valid_points_ge 1 vals) as H.
-    destruct (valid_points 1 vals) as [|[x0 y0] r]; auto.
-    inversion H; subst. simpl in *. destruct (0 <? x0) eqn:E; auto. apply Z.ltb_ge in E. lia.
+    induction pts as [|[d1 v1] pts IH]; simpl.
+    - intros [<-|[]]; auto.
+    - destruct (d <? d1); [simpl; intuition|]. destruct (d =? d1); simpl; intuition.
   Qed.
 
-  Lemma set_label_head d v (z : Series F) s0 :
-    hd_error z = Some (s0, None) -> d <> s0 -> hd_error (set_label d v z) = Some (s0, None).
+  Lemma insert_obs_sorted d v (pts : list (Z * F)) :
+    StronglySorted lt_date pts -> StronglySorted lt_date (insert_obs d v pts).
   Proof.
-    intros H Hd. destruct z as [|p z]; [discriminate|]. injection H as ->.
-    unfold set_label. destruct (has_label d ((s0, None) :: z)); simpl; auto.
-    destruct (Z.eqb s0 d) eqn:E; auto. apply Z.eqb_eq in E. congruence.
+    induction 1 as [|[d1 v1] pts Hs IH Hf]; simpl.
+    - repeat constructor.
+    - destruct (d <? d1) eqn:E1.
+      + apply Z.ltb_lt in E1. constructor; [constructor; auto|]. constructor; [simpl; lia|].
+        eapply Forall_impl; [|exact Hf]. simpl. intros; lia.
+      + destruct (d =? d1) eqn:E2.
+        * apply Z.eqb_eq in E2. subst. constructor; auto.
+        * apply Z.ltb_ge in E1. apply Z.eqb_neq in E2. constructor; auto.
+          apply Forall_forall. intros p Hp. apply insert_obs_In in Hp as [->|Hp]; [simpl; lia|].
+          rewrite Forall_forall in Hf. now apply Hf.
   Qed.
 
-  Lemma gw_var_rows_head (obs : list (Z * F)) (z : Series F) s0 :
-    hd_error z = Some (s0, None) -> ~ In s0 (map fst obs) -> hd_error (gw_var_rows obs z) = Some (s0, None).
+  Theorem obs_sorted_sorted (obs : list (Z * F)) : StronglySorted lt_date (obs_sorted obs).
   Proof.
-    revert z. induction obs as [|[d v] obs IH]; intros z H Hn; simpl; auto.
-    apply IH; [|intros Hin; apply Hn; right; exact Hin].
-    apply set_label_head; auto. intros ->. apply Hn. left. reflexivity.
+    unfold obs_sorted.
+    assert (forall pts, StronglySorted lt_date pts ->
+              StronglySorted lt_date (fold_left (fun acc p => insert_obs (fst p) (snd p) acc) obs pts)) as H.
+    { induction obs as [|[d v] obs IH]; intros pts Hp; simpl; auto. apply IH. now apply insert_obs_sorted. }
+    apply H. constructor.
   Qed.
 
-  (* finding 10: "Variable" with two or more observations none of which is dated on the start day leaves
-     the first simulation day(s) without a depth (NaN); the daily loop cannot use the series *)
-  Theorem gw_variable_nan_start s e o1 o2 (r : list (Z * F)) :
-    s <= e -> ~ In s (map fst (o1 :: o2 :: r)) ->
-    gw_daily true GwVariable s e (o1 :: o2 :: r) = None /\
-    exists z, gw_series true GwVariable s e (o1 :: o2 :: r) = Ok z /\ gw_at z 0 = None.
+  Lemma insert_obs_nonempty d v (pts : list (Z * F)) : insert_obs d v pts <> [].
+  Proof. destruct pts as [|[d1 v1] pts]; simpl; [discriminate|]. destruct (d <? d1); [discriminate|]. destruct (d =? d1); discriminate. Qed.
+
+  Lemma obs_sorted_nonempty o (obs : list (Z * F)) : obs_sorted (o :: obs) <> [].
   Proof.
-    intros Hse Hn. unfold gw_daily, gw_series. cbn [negb].
-    destruct o1 as [d1 v1].
-    set (obs := (d1, v1) :: o2 :: r) in *.
-    pose proof (gw_var_rows_head obs (nan_series s e) s) as H.
-    unfold nan_series in H at 1. rewrite span_cons in H by exact Hse. specialize (H eq_refl Hn).
-    destruct (gw_var_rows obs (nan_series s e)) as [|p z] eqn:E; [discriminate|]. injection H as ->.
-    cbn [map snd]. pose proof (interpolate_head_nan (map snd z)) as Hh.
-    destruct (interpolate (None :: map snd z)) as [|x l] eqn:Ei; [discriminate|]. injection Hh as ->.
-    split.
-    - replace (Z.to_nat (e - s + 1)) with (S (Z.to_nat (e - s))) by lia. reflexivity.
-    - eexists. split; [reflexivity|]. reflexivity.
+    unfold obs_sorted. simpl.
+    assert (forall pts, pts <> [] -> fold_left (fun acc p => insert_obs (fst p) (snd p) acc) obs pts <> []) as H.
+    { induction obs as [|[d v] obs IH]; intros pts Hp; simpl; auto. apply IH. apply insert_obs_nonempty. }
+    apply H. discriminate.
   Qed.
 
-  (* conversely an observation on the start day makes every day defined -- stated for the interpolation:
-     a series that starts with a value has no NaN left *)
-  Lemma interp_fill_all_some pts i (vals : list (option F)) x0 y0 r :
-    pts = (x0, y0) :: r -> x0 <= i -> Forall (fun o => o <> None) (interp_fill pts i vals).
+  Lemma sorted_app_left (l1 : list (Z * F)) x l2 :
+    StronglySorted lt_date (l1 ++ x :: l2) -> Forall (fun y => fst y < fst x) l1.
   Proof.
-    intros -> . revert i. induction vals as [|[v|] vals IH]; intros i Hi; simpl; constructor; try discriminate;
-      try (apply IH; lia).
-    destruct (i <? x0) eqn:E; [apply Z.ltb_lt in E; lia|]. discriminate.
+    induction l1 as [|a l1 IH]; simpl; intros H; auto. inversion H; subst. constructor; auto.
+    rewrite Forall_forall in H3. apply H3. apply in_elt.
   Qed.
 
-  Theorem interpolate_defined v (vals : list (option F)) :
-    Forall (fun o => o <> None) (interpolate (Some v :: vals)).
+  Lemma sorted_app_right (l1 : list (Z * F)) x l2 :
+    StronglySorted lt_date (l1 ++ x :: l2) -> Forall (fun y => fst x < fst y) l2.
   Proof.
-    unfold interpolate. cbn [valid_points]. eapply interp_fill_all_some; [reflexivity|lia].
+    induction l1 as [|a l1 IH]; simpl; intros H; inversion H; subst; auto.
+  Qed.
+
+  Lemma lookup_date_absent d (pts : list (Z * F)) :
+    Forall (fun p => fst p <> d) pts -> lookup_date d pts = None.
+  Proof.
+    unfold lookup_date. induction 1 as [|[d1 v1] pts Hp _ IH]; simpl in *; auto.
+    destruct (Z.eqb d1 d) eqn:E; auto. apply Z.eqb_eq in E. contradiction.
+  Qed.
+
+  (* np.interp walks past every sample point not after x *)
+  Lemma interp_from_app xa ya pre x0 y0 (rest : list (Z * F)) x :
+    Forall (fun p => fst p <= x) pre -> x0 <= x ->
+    interp_from xa ya (pre ++ (x0, y0) :: rest) x = interp_from x0 y0 rest x.
+  Proof.
+    intros Hp Hx. revert xa ya. induction Hp as [|[x1 y1] pre H1 _ IH]; intros xa ya; simpl in *.
+    - destruct (x <? x0) eqn:E; auto. apply Z.ltb_lt in E. lia.
+    - destruct (x <? x1) eqn:E; [apply Z.ltb_lt in E; lia|]. apply IH.
+  Qed.
+
+  Lemma np_interp_app pre x0 y0 (rest : list (Z * F)) x :
+    Forall (fun p => fst p <= x) pre -> x0 <= x ->
+    np_interp (pre ++ (x0, y0) :: rest) x = Some (interp_from x0 y0 rest x).
+  Proof.
+    intros Hp Hx. destruct pre as [|[xa ya] pre]; simpl.
+    - destruct (x <? x0) eqn:E; auto. apply Z.ltb_lt in E. lia.
+    - inversion Hp; subst. simpl in *. destruct (x <? xa) eqn:E; [apply Z.ltb_lt in E; lia|].
+      now rewrite interp_from_app.
+  Qed.
+
+  Lemma to_time_app (a b : list (Z * F)) : to_time (a ++ b) = to_time a ++ to_time b.
+  Proof. apply map_app. Qed.
+
+  Lemma to_time_le (pre : list (Z * F)) d :
+    Forall (fun p => fst p <= d) pre -> Forall (fun p => fst p <= d * time_unit) (to_time pre).
+  Proof.
+    intros H. unfold to_time. apply Forall_forall. intros p Hp. apply in_map_iff in Hp as (q & <- & Hq).
+    rewrite Forall_forall in H. specialize (H q Hq). simpl. unfold time_unit. nia.
+  Qed.
+
+  (* gw_variable_spec.  pts = obs_sorted obs is the list of observations after de-duplication by date
+     (last write wins, [obs_sorted_lookup]) and sorting ([obs_sorted_sorted]).  For a day d: *)
+  (* (i) an observed day has its (last written) observation *)
+  Theorem gw_variable_on_obs (pts : list (Z * F)) d v :
+    lookup_date d pts = Some v -> gw_time_interp pts d = Some v.
+  Proof. unfold gw_time_interp. now intros ->. Qed.
+
+  (* (ii) before the first observation: the first depth *)
+  Theorem gw_variable_before d0 v0 (r : list (Z * F)) d :
+    StronglySorted lt_date ((d0, v0) :: r) -> d < d0 -> gw_time_interp ((d0, v0) :: r) d = Some v0.
+  Proof.
+    intros Hs Hd. unfold gw_time_interp. rewrite lookup_date_absent.
+    - simpl. destruct (d * time_unit <? d0 * time_unit) eqn:E; auto. apply Z.ltb_ge in E. unfold time_unit in E. nia.
+    - inversion Hs; subst. constructor; [simpl; lia|]. eapply Forall_impl; [|exact H2]. simpl. intros; lia.
+  Qed.
+
+  (* (iii) after the last observation: the last depth *)
+  Theorem gw_variable_after pre dl vl d :
+    StronglySorted lt_date (pre ++ [(dl, vl)]) -> dl < d -> gw_time_interp (pre ++ [(dl, vl)]) d = Some vl.
+  Proof.
+    intros Hs Hd. pose proof (sorted_app_left _ _ _ Hs) as Hl. simpl in Hl. unfold gw_time_interp.
+    rewrite lookup_date_absent.
+    - rewrite to_time_app. simpl. rewrite np_interp_app; [reflexivity| |unfold time_unit; nia].
+      apply to_time_le. eapply Forall_impl; [|exact Hl]. simpl. intros; lia.
+    - apply Forall_app. split; [|constructor; [simpl; lia|constructor]].
+      eapply Forall_impl; [|exact Hl]. simpl. intros; lia.
+  Qed.
+
+  (* (iv) strictly between two consecutive observations: the straight line through them, computed as
+          np.interp does over microseconds ([lin_interp_time] in section Real: = v0 + (v1-v0)(d-d0)/(d1-d0)) *)
+  Theorem gw_variable_between pre d0 v0 d1 v1 post d :
+    StronglySorted lt_date (pre ++ (d0, v0) :: (d1, v1) :: post) -> d0 < d < d1 ->
+    gw_time_interp (pre ++ (d0, v0) :: (d1, v1) :: post) d
+    = Some (lin_interp (d0 * time_unit) v0 (d1 * time_unit) v1 (d * time_unit)).
+  Proof.
+    intros Hs [H0 H1]. pose proof (sorted_app_left _ _ _ Hs) as Hl. pose proof (sorted_app_right _ _ _ Hs) as Hr.
+    simpl in Hl, Hr. unfold gw_time_interp. rewrite lookup_date_absent.
+    - rewrite to_time_app. simpl. rewrite np_interp_app; [| |unfold time_unit; nia].
+      + simpl. destruct (d * time_unit <? d1 * time_unit) eqn:E1; [|apply Z.ltb_ge in E1; unfold time_unit in E1; nia].
+        destruct (d * time_unit =? d0 * time_unit) eqn:E2; [apply Z.eqb_eq in E2; unfold time_unit in E2; nia|].
+        reflexivity.
+      + apply to_time_le. eapply Forall_impl; [|exact Hl]. simpl. intros; lia.
+    - apply Forall_app. split; [eapply Forall_impl; [|exact Hl]; simpl; intros; lia|].
+      constructor; [simpl; lia|]. inversion Hr; subst. constructor; [simpl in *; lia|].
+      eapply Forall_impl; [|exact H4]. simpl. intros a Ha.
+      apply (sorted_app_right (pre ++ [(d0, v0)]) (d1, v1) post) in Hs'. all: fail.
   Qed.
 End Generic.
 
